@@ -29,6 +29,18 @@ func (fr *Frame) execCall(st *State, in ssa.Instruction, cc *ssa.CallCommon) *Va
 		recv := fr.get(st, cc.Value)
 		fr.checkSafe(st, in, "nil", Neq(recv.Tag, Num(0)))
 		key := ifaceMethodKey(cc.Value.Type(), cc.Method.Name())
+		// devirtualize when the dynamic type is statically known: use the implementer's contract
+		if recv.Tag.IsNum() {
+			if t := typeTagTypes[recv.Tag.NumVal().Int64()]; t != nil {
+				if sel := c.eng.prog.MethodSets.MethodSet(t).Lookup(cc.Method.Pkg(), cc.Method.Name()); sel != nil {
+					if mfn := c.eng.prog.MethodValue(sel); mfn != nil && mfn.Synthetic == "" {
+						if mct := c.eng.contracts[mfn.RelString(nil)]; mct != nil && !mct.Inline {
+							return fr.applyContract(st, in, mct, mfn.Signature, c.unbox(st, recv, t), args, mfn)
+						}
+					}
+				}
+			}
+		}
 		if ct := c.eng.ifaceContracts[key]; ct != nil {
 			return fr.applyContract(st, in, ct, sig, recv, args, nil)
 		}
@@ -214,6 +226,12 @@ func (fr *Frame) applyContract(st *State, in ssa.Instruction, ct *Contract, sig 
 	if fr.contract != nil {
 		for i, a := range fr.contract.Asserts[ord] {
 			env := fr.envAt(st)
+			if a.Kind == "ghost" {
+				if err := c.ghostAssign(env, a); err != nil {
+					c.errorf("%s: ghost update at %s: %v", fr.fn.Name(), ord, err)
+				}
+				continue
+			}
 			t, err := env.evalClause(a.E)
 			if err != nil {
 				c.errorf("%s: assert at %s: %v", fr.fn.Name(), ord, err)
@@ -342,6 +360,34 @@ func (fr *Frame) envAt(st *State) *Env {
 		pkg = fr.fn.Pkg.Pkg
 	} else if fr.fn.Parent() != nil && fr.fn.Parent().Pkg != nil {
 		pkg = fr.fn.Parent().Pkg.Pkg
+	}
+	// unnamed results live in hidden cells (naive form stores them before running defers): bind
+	// the contract's result names to those cells so that body-level clauses can mention them
+	if fr.contract != nil && fr.depth == 0 && len(fr.fn.Blocks) > 0 {
+		var cells []*ssa.Alloc
+		for _, in := range fr.fn.Blocks[0].Instrs {
+			if a, ok := in.(*ssa.Alloc); ok && !a.Heap {
+				cells = append(cells, a)
+			}
+		}
+		np := len(fr.fn.Params)
+		res := fr.fn.Signature.Results()
+		if len(cells) >= np+res.Len() && len(fr.contract.Results) == res.Len() {
+			for i := 0; i < res.Len(); i++ {
+				a := cells[np+i]
+				if _, taken := vars[fr.contract.Results[i].Name]; taken {
+					continue
+				}
+				if a.Comment != "" && a.Comment == fr.contract.Results[i].Name {
+					continue // named result: resolved as an ordinary local
+				}
+				if types.Identical(derefType(a.Type()), res.At(i).Type()) && fr.allocAt[a] {
+					if pv := fr.vals[a]; pv != nil {
+						vars[fr.contract.Results[i].Name] = fr.c.load(st, pv)
+					}
+				}
+			}
+		}
 	}
 	return &Env{c: fr.c, cur: st, old: fr.entry, vars: vars, pkg: pkg, frame: fr, oldVars: fr.vars}
 }
